@@ -25,14 +25,14 @@ FAMILIES = {
 }
 
 
-def exh_cfg(family, N, D, P, subs=1, works=(1, 2)):
+def exh_cfg(family, N, D, P, subs=1, works=(1, 2), auto=0):
     spec, inv, props = FAMILIES[family]
-    return cfg({"N": N, "Works": set(works), "MaxDepth": D, "P": P, "MaxSubs": subs}, spec=spec,
+    return cfg({"N": N, "Works": set(works), "MaxDepth": D, "P": P, "MaxSubs": subs, "AutoEvery": auto}, spec=spec,
                invariants=inv, properties=props)
 
 
-def gen_cfg(N, D, P, subs, depth, ops, works=(1, 2), lean=True, ties=False):
-    return cfg({"N": N, "Works": set(works), "MaxDepth": D, "P": P, "MaxSubs": subs, "Depth": depth,
+def gen_cfg(N, D, P, subs, depth, ops, works=(1, 2), lean=True, ties=False, auto=0):
+    return cfg({"N": N, "Works": set(works), "MaxDepth": D, "P": P, "MaxSubs": subs, "AutoEvery": auto, "Depth": depth,
                 "Ops": {q(o) for o in ops}, "Lean": lean, "Ties": ties, "Script": "ScriptNone"}, spec="GSpec",
                invariants=["Emit"]).replace("Script = ScriptNone", "Script <- TheScript")
 
@@ -52,10 +52,10 @@ def plan(prop, tier):
         return dict(N=N, D=D, P=P, subs=subs, depth=depth, ops=ops, num=n, S=S, big=big, flags=list(flags),
                     works=works, lean=lean, ties=ties)
 
-    def sc(script, N=4, D=4, P=4, subs=0, works=(1, 2), S=(1, 3), flags=(), lean=True, ties=False):
+    def sc(script, N=4, D=4, P=4, subs=0, works=(1, 2), S=(1, 3), flags=(), lean=True, ties=False, auto=0):
         """bounded-exhaustive scenario family: all trees over N blocks, all orders, the scripted step kinds"""
         return dict(N=N, D=D, P=P, subs=subs, depth=len(script), ops=(), num=0, S=S, big=None, flags=list(flags),
-                    works=works, lean=lean, script=list(script), ties=ties)
+                    works=works, lean=lean, script=list(script), ties=ties, auto=auto)
 
     G = "grow"
     maint_ops = ("submit", "clean", "save", "load")
@@ -70,7 +70,7 @@ def plan(prop, tier):
                  g(D=2, P=3, ops=maint_ops, n=num // 2, works=(1,), ties=True),
                  # the implementation's own scale: 5000 headers per block, exported Clean / Load (prune depth 10000),
                  # the automatic clean at height 10000
-                 sc([G, G, G, "clean", "save", "load"], N=3, D=3, P=2, S=(5000,), flags=["-realclean"])]
+                 sc([G, G, G, "clean", "save", "load"], N=3, D=3, P=2, S=(5000,), flags=["-realclean"], auto=2)]
     elif prop == "C07":
         exh = [("core", 4, 1, 2, 2)] + ([] if quick else [("core", 5, 1, 2, 1)])
         gens = [g(D=1, P=2, subs=2, ops=("submit", "subscribe", "clean"), big=400),
@@ -80,7 +80,7 @@ def plan(prop, tier):
                 g(N=7, D=2, P=3, subs=1, depth=14, ops=("submit", "subscribe"))]
         gens += [sc(["subscribe", G, G, G, G], subs=1), sc([G, "subscribe", G, G, G, "subscribe"], subs=2, works=(1, 3)), sc([G, G, "subscribe", "clean", G, G], subs=1, D=1, P=2),
                  sc(["subscribe", G, G, G, G], subs=1, works=(1,), ties=True),
-                 sc(["subscribe", G, G, G], subs=1, N=3, D=3, P=2, S=(5000,), flags=["-realclean"])]
+                 sc(["subscribe", G, G, G], subs=1, N=3, D=3, P=2, S=(5000,), flags=["-realclean"], auto=2)]
     elif prop == "C08":
         exh = [("core", 4, d, 2, 1) for d in (0, 1, 2)] + ([] if quick else [("core", 5, 1, 2, 1)])
         gens = [g(D=d, P=max(2, d), ops=("submit", "clean", "save"), flags=["-twin"], big=(400 if d == 1 else None),
@@ -99,7 +99,7 @@ def plan(prop, tier):
                  # a fork becomes the best chain because the competing header is marked invalid, is consolidated
                  # and then pruned from memory
                  sc([G, G, "mark", "clean", G, G, "clean"], D=4, P=1),
-                 sc([G, G, G, "clean", "save", "load"], N=3, D=3, P=2, S=(5000,), flags=["-realclean"])]
+                 sc([G, G, G, "clean", "save", "load"], N=3, D=3, P=2, S=(5000,), flags=["-realclean"], auto=2)]
     elif prop == "C10":
         exh = [("maint", 4, 1, 2, 1), ("maint", 4, 2, 2, 1)]
         gens = [g(D=1, P=2, ops=("submit", "clean"), big=400), g(D=2, P=2, ops=("submit", "clean"), S=(1, 3, 7)),
@@ -108,7 +108,7 @@ def plan(prop, tier):
         gens += [sc([G, G, G, G, "clean"]), sc([G, G, G, "clean", G, "clean"], D=1, P=1), sc([G, G, "clean", G, G, "clean"], works=(1, 3), P=2),
                  sc([G, G, G, "clean", G, "clean"], D=2, P=2, works=(1,), ties=True),
                  sc(["legacy", G, G, "clean", G, "clean"], D=2, P=1),
-                 sc([G, G, "clean", G, "clean"], N=3, D=3, P=2, S=(5000,), flags=["-realclean"])]
+                 sc([G, G, "clean", G, "clean"], N=3, D=3, P=2, S=(5000,), flags=["-realclean"], auto=2)]
     elif prop == "C11":
         exh = [("maint", 4, 1, 2, 1), ("mark", 3, 3, 2, 1)]
         gens = [g(D=1, P=2, ops=maint_ops, big=500), g(D=2, P=3, ops=maint_ops, S=(1, 3, 7)),
@@ -119,7 +119,7 @@ def plan(prop, tier):
                  # a store written before branches existed (version-0 files), or an empty store, is loaded first
                  dict(sc(["legacy", G, G, "clean", "save", "load", G], D=2, P=2), big=400),
                  sc(["legacy", G, "save", "load", G, "clean", G], D=4, P=1, S=(1, 7)),
-                 sc([G, G, "save", G, "save", "load"], N=3, D=3, P=2, S=(5000,), flags=["-realclean"])]
+                 sc([G, G, "save", G, "save", "load"], N=3, D=3, P=2, S=(5000,), flags=["-realclean"], auto=2)]
     elif prop == "C12":
         exh = [("maint", 4, 1, 2, 1)]
         gens = [g(D=1, P=2, ops=("submit", "clean", "save", "reload"), flags=["-crash"], big=400),
@@ -156,9 +156,18 @@ def plan(prop, tier):
     else:
         raise Infra("no header plan for " + prop)
     if not quick:
+        extra = []
         for x in gens:
             if x["big"] is None:
                 x["big"] = 400
+        if prop in ("C09", "C10", "C11", "C01"):
+            # the implementation's own constants: prune depth 10000 = P blocks of 10000/P headers, the exported Clean / Load,
+            # and the automatic clean at every multiple of 10000 (every P block heights)
+            for x in gens:
+                if not x.get("script") and 10000 % x["P"] == 0 and x["P"] <= 2 and "-crash" not in x["flags"]:
+                    extra.append(dict(x, num=60, S=(10000 // x["P"],), big=None, flags=x["flags"] + ["-realclean"], auto=x["P"]))
+                    break
+        gens += extra
     return exh, gens
 
 
@@ -172,7 +181,8 @@ def generate(scratch, gc, s, idx):
         if "unmark" in sc:
             ops.add("mark")
         out, st = run_tlc(scratch, "HCRun", gen_cfg(gc["N"], gc["D"], gc["P"], gc["subs"], len(sc), sorted(ops),
-                                                    gc.get("works", (1, 2)), gc.get("lean", True), gc.get("ties", False)),
+                                                    gc.get("works", (1, 2)), gc.get("lean", True), gc.get("ties", False),
+                                                    gc.get("auto", 0)),
                           files={"HCRun.tla": script_module(sc)}, workers=1, timeout=1800, name="scr%d" % idx)
         if st.get("error") or st.get("violation") or "Model checking completed" not in out:
             raise Infra("scripted generation failed: %s\n%s" % (st, out[-2000:]))
@@ -182,7 +192,7 @@ def generate(scratch, gc, s, idx):
         return behs
     out, st = run_tlc(scratch, "HCRun",
                       gen_cfg(gc["N"], gc["D"], gc["P"], gc["subs"], gc["depth"], gc["ops"], gc.get("works", (1, 2)),
-                              gc.get("lean", True), gc.get("ties", False)),
+                              gc.get("lean", True), gc.get("ties", False), gc.get("auto", 0)),
                       files={"HCRun.tla": script_module([])},
                       workers=1, simulate=gc["num"], depth=gc["depth"] + 2, tlc_seed=s, timeout=1200,
                       name="gen%d" % idx)
@@ -229,6 +239,23 @@ def run(prop, tier):
             exh_desc.append("%s N=%d MaxDepth=%d P=%d subs=%d: %d distinct / %d generated" % (
                 fam, N, D, P, subs, st["distinct"], st["generated"]))
 
+        # 1b. C12 at the design level: the two stores of the best chain and the order of the writes (HeaderStore.tla)
+        if prop == "C12":
+            hs = cfg({"MaxLen": 4 if tier == "quick" else 5, "MaxId": 9 if tier == "quick" else 12, "P": 1}, spec="Spec",
+                     invariants=["TypeOK", "CrashSoundShallow"])
+            out, st = run_tlc(scratch, "HeaderStore", hs, workers=NCPU, timeout=2400, name="hstore")
+            tlc_ok(out, st, "HeaderStore CrashSoundShallow")
+            states += st["distinct"]
+            transitions += st["generated"]
+            exh_desc.append("HeaderStore (write order, crash between any two writes): CrashSoundShallow holds, %d distinct" % st["distinct"])
+            out, st = run_tlc(scratch, "HeaderStore", hs.replace("CrashSoundShallow", "CrashSound"), workers=1, timeout=2400,
+                              name="hstore_full")
+            if st.get("error") and not st.get("violation"):
+                raise Infra("HeaderStore CrashSound run failed: %s" % st)
+            exh_desc.append("HeaderStore CrashSound without the deep-reorganisation exemption: %s" % (
+                "violated as expected (the trace of known finding F-C12-1)" if st.get("violation") else
+                "NOT violated (the design-level window of F-C12-1 has disappeared from the model)"))
+
         # 2. behaviours from the spec, replayed on the real repository
         jobs = []
         with cf.ThreadPoolExecutor(max_workers=max(2, NCPU // 2)) as ex:
@@ -266,13 +293,6 @@ def run(prop, tier):
                 with open(sub, "w") as fh:
                     fh.write("\n".join(behs[:k]) + "\n")
                 runs.append((gc["big"], sub, None))
-                if tier == "thorough" and prop in ("C09", "C10", "C11", "C01"):
-                    # the implementation's own constants: prune depth 10000 = P*S with the exported Clean/Load
-                    if 10000 % gc["P"] == 0:
-                        sub2 = os.path.join(scratch, "beh_%d_real.jsonl" % i)
-                        with open(sub2, "w") as fh:
-                            fh.write("\n".join(behs[:300]) + "\n")
-                        runs.append((10000 // gc["P"], sub2, "-realclean"))
             for S, p, extra in runs:
                 args = ["hdr", "-s", str(S), "-d", str(gc["D"]), "-p", str(gc["P"]), "-seed", str(sd),
                         "-workers", str(NCPU), "-in", p] + gc["flags"] + ([extra] if extra else [])
@@ -450,7 +470,7 @@ def concurrent_leg(scratch, binary, res, prop, tier, sd):
         lines += [l for l in open(tp).read().splitlines() if l.strip()]
     if not lines:
         raise Infra("hdrc produced no traces")
-    out, st = run_tlc(scratch, "HeaderChainLin", cfg({"N": N, "Works": {1, 2}, "MaxDepth": 1000000, "P": 1000000, "MaxSubs": 1},
+    out, st = run_tlc(scratch, "HeaderChainLin", cfg({"N": N, "Works": {1, 2}, "MaxDepth": 1000000, "P": 1000000, "MaxSubs": 1, "AutoEvery": 0},
                                                      spec="LSpec", invariants=["Emit"]),
                       files={"trace.ndjson": "\n".join(lines) + "\n"}, workers=NCPU, timeout=2400, name="hclin")
     if st.get("error") or st.get("violation") or "Model checking completed" not in out:
@@ -508,7 +528,7 @@ def validate_locators(scratch, files, res):
     for (N, S), ls in sorted(groups.items()):
         trace = "\n".join(ls) + "\n"
         out, st = run_tlc(scratch, "HeaderLocatorTrace",
-                          cfg({"N": N, "Works": {1, 2}, "MaxDepth": 1, "P": 2, "MaxSubs": 1, "S": S},
+                          cfg({"N": N, "Works": {1, 2}, "MaxDepth": 1, "P": 2, "MaxSubs": 1, "AutoEvery": 0, "S": S},
                               spec="TSpec", invariants=["Judged"], postcondition="Accepted"),
                           files={"trace.ndjson": trace}, workers=1, timeout=1800, name="loc_%d_%d" % (N, S))
         if st.get("error") or "Model checking completed" not in out:
